@@ -1,8 +1,128 @@
 /-
-  C05 — property theorems (only `theorem C05_*` statements and non-vacuity examples live here;
-  helper lemmas go to CedarGoProofs/Lemmas/).
+  C05 — Batch authorization equals brute-force authorization of every substitution.
+
+  Model: `CedarGo/Model/Batch.lean` (`cloneSub` with its defect, `Value.subst`, `doBatch`, `batchAuthorize`), tied to
+  `x/exp/batch/batch.go` by the correspondence ops `clonesub` and `batch` (whole enumeration: staged partial
+  evaluation, substitution, final authorization; the model reproduces the implementation's results INCLUDING the
+  known defects).
+
+  PROVED here
+    * `C05_cloneSub_counterexample`      — the code's substitution leaves an occurrence of the variable behind
+                                           (context `{a: ?x, b: ?x}`): the full property is false for the code as written.
+    * `C05_subst_complete`               — the specification (`Value.subst`) really removes every occurrence.
+    * `C05_cloneSub_is_subst_partial`    — on values in which every record has at most one field bearing the variable
+                                           (`Value.oneBearing`), `cloneSub` IS full substitution and its change flag is
+                                           exactly "the variable occurs".
+    * `C05_cloneSubEnv_is_substEnv_partial` — the same for the four request parts.
+    * `C05_batch_is_fold_over_product`   — the recursive enumeration is a left-to-right pass over the Cartesian product
+                                           (the `trace`), consulting the cancellation oracle before and the callback at
+                                           every element, stopping at the first failure.
+    * `C05_batch_calls_eq_product_partial` — no cancellation, callback never fails, every substituted request well-typed:
+                                           the callback is invoked exactly once per element of the product, in order, with
+                                           that substitution (`values`) — and with the request obtained by `cloneSub`;
+                                           together with `C05_cloneSub_is_subst_partial` this is the fully substituted
+                                           request on the `oneBearing` domain.
+    * `C05_batch_stops_at_first_failure` — if the callback fails at its (k+1)-th invocation the run returns that error
+                                           after exactly k+1 invocations; if the context is cancelled once k invocations
+                                           have been made the run returns `cancelled` after exactly k invocations.
+  NOT PROVED (stated in the doc comment of `C05_batch_decision_eq_direct`): that each result's decision and reason
+  set equal the ordinary authorizer's.  That is C06's soundness applied at every enumeration level; the code violates it
+  outside C06's domain (see `C06_*_counterexample`), and inside it the level-by-level composition is not done here.
+  The direct oracle (harness/cmd/vh/c05.go) decides exactly that statement on the implementation.
 -/
-import CedarGo.Model.Fold
+import CedarGo.Model.Batch
+import CedarGoProofs.Lemmas.C05
 namespace CedarGo
+
+/-! ## substitution -/
+
+/-- witness: context `{a: ?x, b: ?x}`, `x := 1` -/
+def c05CeValue : Value := .record [("a", mkVariable "x"), ("b", mkVariable "x")]
+
+/-- `cloneSub` is NOT full substitution: after substituting `x` the value still contains `x`,
+    whereas full substitution leaves none. -/
+theorem C05_cloneSub_counterexample :
+    ∃ (k : String) (v r : Value), v.hasVar k = false ∧
+      ((cloneSub k v r).1).hasVar k = true ∧ (Value.subst k v r).hasVar k = false :=
+  ⟨"x", .long 1, c05CeValue, by decide +kernel, by decide +kernel, by decide +kernel⟩
+
+/-- the specification side: full substitution by a variable-free value leaves no occurrence of the variable -/
+theorem C05_subst_complete (k : String) (v r : Value) (hv : v.hasVar k = false) :
+    (Value.subst k v r).hasVar k = false :=
+  subst_complete k v hv r
+
+/-- Full statement (false for the code, see the counterexample): `∀ r, cloneSub k v r = (Value.subst k v r, r.hasVar k)`.
+    Proved on the domain where every record has at most one field bearing the variable. -/
+theorem C05_cloneSub_is_subst_partial (k : String) (v r : Value) (h : r.oneBearing k = true) :
+    cloneSub k v r = (Value.subst k v r, r.hasVar k) :=
+  cloneSub_eq_subst k v r h
+
+example : c05CeValue.oneBearing "x" = false := by decide +kernel
+example : (Value.record [("a", mkVariable "x"), ("b", mkVariable "y"), ("c", .set [mkVariable "x"])]).oneBearing "y" = true := by
+  decide +kernel
+
+theorem C05_cloneSubEnv_is_substEnv_partial (k : String) (v : Value) (env : Env)
+    (hp : env.principal.oneBearing k = true) (ha : env.action.oneBearing k = true)
+    (hr : env.resource.oneBearing k = true) (hc : env.context.oneBearing k = true) :
+    cloneSubEnv k v env = substEnv k v env := by
+  simp [cloneSubEnv, substEnv, cloneSub_eq_subst, hp, ha, hr, hc]
+
+/-! ## enumeration -/
+
+/-- The recursive enumeration equals one pass over the product trace. -/
+theorem C05_batch_is_fold_over_product {ε : Type} (cancelled : Nat → Bool) (cb : BResult → Except ε Unit)
+    (vars : List (String × List Value)) (env : Env) (ps : List (PolicyID × Policy))
+    (vals : List (String × Value)) (calls : List BResult) (hne : ∀ kv ∈ vars, kv.2 ≠ []) :
+    doBatch cancelled cb vars env ps vals calls = runTrace cancelled cb (trace vars env ps vals) calls :=
+  doBatch_eq_runTrace cancelled cb vars env ps vals calls hne
+
+/-- exactly once per element of the Cartesian product, in order, with the substitution used -/
+theorem C05_batch_calls_eq_product_partial {ε : Type} (cb : BResult → Except ε Unit)
+    (vars : List (String × List Value)) (env : Env) (ps : List (PolicyID × Policy))
+    (hne : ∀ kv ∈ vars, kv.2 ≠ [])
+    (hcb : ∀ r, cb r = .ok ())
+    (hvalid : ∀ o ∈ trace vars env ps [], o.2.isSome = true) :
+    ∃ calls, doBatch (fun _ => false) cb vars env ps [] [] = .ok calls ∧
+      calls.map (·.values) = product vars ∧
+      calls.map some = (trace vars env ps []).map (·.2) := by
+  rw [doBatch_eq_runTrace _ _ _ _ _ _ _ hne]
+  obtain ⟨calls, h1, h2⟩ := runTrace_all_ok cb (trace vars env ps []) hcb hvalid
+  refine ⟨calls, h1, ?_, h2⟩
+  rw [values_of_trace _ _ h2 (trace_leaf_values vars env ps []), trace_substs]
+  simp
+
+example : product [("x", [.long 1, .long 2]), ("y", [.bool true])] =
+    [[("x", .long 1), ("y", .bool true)], [("x", .long 2), ("y", .bool true)]] := by rfl
+
+/-- callback failure: the error is returned and exactly the invocations up to and including the failing one happened -/
+theorem C05_batch_stops_at_first_failure {ε : Type} (cancelled : Nat → Bool) (cb : BResult → Except ε Unit)
+    (vars : List (String × List Value)) (env : Env) (ps : List (PolicyID × Policy))
+    (hne : ∀ kv ∈ vars, kv.2 ≠ []) (e : ε) (calls : List BResult)
+    (h : doBatch cancelled cb vars env ps [] [] = .error (.callback e, calls)) :
+    ∃ (pre : List BResult) (r : BResult) (rest : List (Option BResult)),
+      calls = pre ++ [r] ∧ cb r = .error e ∧ (∀ x ∈ pre, cb x = .ok ()) ∧
+      (trace vars env ps []).map (·.2) = pre.map some ++ [some r] ++ rest := by
+  rw [doBatch_eq_runTrace _ _ _ _ _ _ _ hne] at h
+  obtain ⟨pre, r, rest, h1, h2, h3, h4⟩ := runTrace_callback_error cancelled cb (trace vars env ps []) [] e calls h
+  exact ⟨pre, r, rest.map (·.2), by simpa using h1, h2, h3, h4⟩
+
+/-- cancellation: the run stops before the next invocation; exactly the invocations made so far are reported -/
+theorem C05_batch_stops_when_cancelled {ε : Type} (cancelled : Nat → Bool) (cb : BResult → Except ε Unit)
+    (vars : List (String × List Value)) (env : Env) (ps : List (PolicyID × Policy))
+    (hne : ∀ kv ∈ vars, kv.2 ≠ []) (calls : List BResult)
+    (h : doBatch cancelled cb vars env ps [] [] = .error (.cancelled, calls)) :
+    cancelled calls.length = true ∧ (∀ x ∈ calls, cb x = .ok ()) ∧
+      ∃ rest, (trace vars env ps []).map (·.2) = calls.map some ++ rest := by
+  rw [doBatch_eq_runTrace _ _ _ _ _ _ _ hne] at h
+  obtain ⟨hc, pre, rest, h1, h2, h3⟩ := runTrace_cancelled cancelled cb (trace vars env ps []) [] calls h
+  have : calls = pre := by simpa using h1
+  subst this
+  exact ⟨hc, h2, rest.map (·.2), h3⟩
+
+/- `C05_batch_decision_eq_direct` (NOT proved; decided on the implementation by the direct oracle):
+     for every call `r` of a run, `r.allow` and the set of `r.reasons` ids equal
+     `authorize ps (the fully substituted request)`.
+   False for the code as written outside C06's domain: `C06_stale_residual_counterexample`,
+   `C06_tainted_container_counterexample`, `C06_isin_eager_counterexample`. -/
 
 end CedarGo
